@@ -64,6 +64,28 @@ def extTime (w : World) : BitVec 32 × BitVec 64 × World :=
 def extIo (w : World) (buf : Nat) (len : BitVec 64) (timeout : BitVec 64) : BitVec 32 × World :=
   (w.io w.nio, { w with nio := w.nio + 1, calls := w.calls ++ [(buf, len, timeout)] })
 
+/-- result of one iteration of a translated loop -/
+inductive Step (ρ σ : Type) where
+  | done (r : ρ)
+  | next (s : σ)
+
+/-- answer of the world to an external call: return value, auxiliary 64-bit value (e.g. the time), and the record the
+    callee may have changed -/
+structure ExtAns (σ : Type) where
+  rc : BitVec 64
+  aux : BitVec 64
+  st : σ
+
+/-- the world of a function whose callees are not translated (the state machine): the i-th external call is answered by
+    `ext i`; `trace` records every call with its name, its recorded scalar arguments and the record at the time of the call -/
+structure XWorld (σ : Type) where
+  ext : Nat → ExtAns σ
+  n : Nat := 0
+  trace : List (String × List (BitVec 64) × σ) := []
+
+def xcall {σ : Type} (w : XWorld σ) (name : String) (args : List (BitVec 64)) (s : σ) : BitVec 64 × BitVec 64 × σ × XWorld σ :=
+  ((w.ext w.n).rc, (w.ext w.n).aux, (w.ext w.n).st, { w with n := w.n + 1, trace := w.trace ++ [(name, args, s)] })
+
 /-- fuel of translated loops: more iterations than any counter of the translated code can count -/
 def FUEL : Nat := 2 ^ 64 + 1
 
